@@ -54,7 +54,13 @@ def run_case(case):
         try:
             r2 = _roles(t2.split("\n"))
         except exceptions.ClassifyError as e:
-            out.append({"chain": chain, "r": "rejected", "msg": str(e).strip().replace("\n", " | ")[:300]})
+            # known tokenizer weakness: the double quote inside the character literal '"' opens a string when
+            # another double quote follows on the same line (only when the input itself did not have that)
+            def _dq(tt):
+                return any(("'\"'" in ln and '"' in ln.split("'\"'", 1)[1]) for ln in tt.split("\n"))
+
+            cause = "charlit-doublequote-then-string-on-one-line" if (_dq(t2) and not _dq(text)) else None
+            out.append({"chain": chain, "r": "rejected", "msg": str(e).strip().replace("\n", " | ")[:300], "cause": cause})
             continue
         except Exception as e:
             out.append({"chain": chain, "r": "crash", "msg": repr(e)[:300]})
@@ -127,6 +133,8 @@ def judge(case, res, V, stats):
 
             m = _re.search(r"while parsing (\w+) .*?Expecting : (\S+)", v.get("msg", ""))
             what = ("%s:expecting-%s" % (m.group(1), m.group(2))) if m else "other"
+            if v.get("cause"):
+                what = v["cause"]
             V.violation("rejected:%s:%s" % (kinds, what), one, v)
         elif r == "crash":
             V.violation("crash:" + kinds, one, v)
